@@ -309,6 +309,29 @@ Section WithBody.
   Definition eval_args (p : pipeline) (kw : alist) (f : pfunc) : result alist :=
     args_with (eval (length p) p kw) p kw f.
 
+  (* ---------- Pipeline._validate_run_kwargs: the keywords are validated BEFORE anything is executed ----------
+     (C12 repair "validate the keyword arguments of Pipeline.run before executing anything").  The code walks the
+     functions `_run` would execute - stopping at bound and at supplied names, like _get_func_args - i.e. the set
+     `needed_top`; a parameter without value raises ValueError, then a keyword that names no parameter of a visited
+     function raises UnusedParametersError.  A request for a name that is not an output fails in the same walk with
+     the KeyError of output_to_func[name] (as `run` does). *)
+  Definition missingb (p : pipeline) (kw : alist) (o : str) : bool :=
+    existsb (fun f => existsb (fun cur => match source_of p kw f cur with SMissing => true | _ => false end)
+                              (pnames f)) (needed_top p kw o).
+  Definition surplusb (p : pipeline) (kw : alist) (o : str) : bool :=
+    negb (subset_str (akeys kw) (param_names_needed p kw o)).
+  Definition run_precheck (p : pipeline) (o : str) (kw : alist) : result unit :=
+    if negb (is_node p o) || ahas kw o || negb (is_output p o) then Ok tt     (* rejected by `run` itself *)
+    else if missingb p kw o then Err ValueError
+    else if surplusb p kw o then Err UnusedParametersError
+    else Ok tt.
+  (* Pipeline.run as it is since that repair; `run` is the evaluation proper *)
+  Definition run_checked (p : pipeline) (o : str) (kw : alist) (full : bool) : result outcome * list call :=
+    match run_precheck p o kw with
+    | Err e => (Err e, [])
+    | Ok _ => run p o kw full
+    end.
+
   (* ---------- arg_combinations / root_args ---------- *)
   (* A dependency node is identified by a str: a function by its fid, a root argument by its name. *)
   Definition node_func (p : pipeline) (n : str) : option pfunc :=
